@@ -184,23 +184,28 @@ Proof.
   - (* OCopy *)
     destruct (w !! src) as [ssrc|].
     + destruct (copy_bdd ssrc u s) as [r0 s1] eqn:E.
+      assert (E0 : copy_bdd_pub ssrc u s = copy_bdd ssrc u s) by apply (guarded_none _ s Hl).
       assert (s1 = s' ∧ (∀ e, r = Err e → r0 = Err e)) as [<- Hre].
-      { revert H. unfold bind. rewrite E. destruct r0; intros [= <- <-]; split; try done.
+      { revert H. unfold bind. rewrite E0, E. destruct r0; intros [= <- <-]; split; try done.
         by intros e0 [= ->]. }
       destruct (Hts _ _ r0 (nrf_copy_bdd ssrc u) (tsafe_copy_bdd ssrc u) E) as (?&?&Hn).
       split; [done|split; [done|]]. intros ->. by apply (Hn _ (Hre _ eq_refl)).
     + injection H as <- <-. split; [done|split; [apply keeps_refl|done]].
   - (* OImage *)
     destruct (image t s0 byname rn qbyname q fa s) as [r0 s1] eqn:E.
+    assert (E0 : image_pub t s0 byname rn qbyname q fa s = image t s0 byname rn qbyname q fa s)
+      by apply (guarded_none _ s Hl).
     assert (s1 = s' ∧ (∀ e, r = Err e → r0 = Err e)) as [<- Hre].
-    { revert H. unfold bind. rewrite E. destruct r0; intros [= <- <-]; split; try done.
+    { revert H. unfold bind. rewrite E0, E. destruct r0; intros [= <- <-]; split; try done.
       by intros e0 [= ->]. }
     destruct (Hts _ _ r0 (nrf_image _ _ _ _ _ _ _) (tsafe_image _ _ _ _ _ _ _) E) as (?&?&Hn).
     split; [done|split; [done|]]. intros ->. by apply (Hn _ (Hre _ eq_refl)).
   - (* OPreimage *)
     destruct (preimage t s0 byname rn qbyname q fa s) as [r0 s1] eqn:E.
+    assert (E0 : preimage_pub t s0 byname rn qbyname q fa s = preimage t s0 byname rn qbyname q fa s)
+      by apply (guarded_none _ s Hl).
     assert (s1 = s' ∧ (∀ e, r = Err e → r0 = Err e)) as [<- Hre].
-    { revert H. unfold bind. rewrite E. destruct r0; intros [= <- <-]; split; try done.
+    { revert H. unfold bind. rewrite E0, E. destruct r0; intros [= <- <-]; split; try done.
       by intros e0 [= ->]. }
     destruct (Hts _ _ r0 (nrf_preimage _ _ _ _ _ _ _) (tsafe_preimage _ _ _ _ _ _ _) E) as (?&?&Hn).
     split; [done|split; [done|]]. intros ->. by apply (Hn _ (Hre _ eq_refl)).
